@@ -1,4 +1,5 @@
 import RocflModel.Lemmas.RepoInvariant
+import RocflModel.Theorems.C08
 /-
   Towards "committed versions return the same answers forever" (C02): every staging operation changes
   an inventory only in its head version and in manifest entries that belong to the head version.
@@ -746,5 +747,181 @@ theorem step_ext (r : Repo) (now : Str) (op : Op) (h : ExtInv r) (hok : RepoOk r
 theorem reachable_ext (spec : SpecV) (ops : List (Op × Str)) : RepoOk (run spec ops) ∧ ExtInv (run spec ops) :=
   run_induction (P := fun r => RepoOk r ∧ ExtInv r) spec ⟨RepoOk.empty spec, ExtInv.empty spec⟩
     (fun r now op h => ⟨step_ok r now op h.1, step_ext r now op h.2 h.1⟩) ops
+
+/-! ### reads of committed versions -/
+
+def lowPaths (m : List (CPath × Digest)) (d : Digest) (vn : Nat) : List CPath :=
+  ((m.filter (fun e => e.2 == d)).map (·.1)).filter (fun cp => cp.1 ≤ vn)
+
+theorem lowPaths_filter (m : List (CPath × Digest)) (d : Digest) (vn n : Nat) (h : vn ≤ n) :
+    lowPaths (m.filter (verLe n)) d vn = lowPaths m d vn := by
+  induction m with
+  | nil => rfl
+  | cons e t ih =>
+    by_cases hv : verLe n e = true
+    · simp only [List.filter_cons, hv, ↓reduceIte]
+      unfold lowPaths at ih ⊢
+      by_cases hd : (e.2 == d) = true
+      · simp only [List.filter_cons, hd, ↓reduceIte, List.map_cons]
+        by_cases hc : decide (e.1.1 ≤ vn) = true
+        · simp only [hc, ↓reduceIte]; rw [ih]
+        · simp only [hc, ↓reduceIte]; exact ih
+      · simp only [List.filter_cons, hd, ↓reduceIte]; exact ih
+    · have hv' : verLe n e = false := by simpa using hv
+      simp only [List.filter_cons, hv', Bool.false_eq_true, ↓reduceIte]
+      rw [ih]
+      unfold lowPaths
+      by_cases hd : (e.2 == d) = true
+      · simp only [List.filter_cons, hd, ↓reduceIte, List.map_cons]
+        have : decide (e.1.1 ≤ vn) = false := by
+          simp only [verLe, decide_eq_false_iff_not] at hv'
+          simp only [decide_eq_false_iff_not]
+          omega
+        simp only [this, Bool.false_eq_true, ↓reduceIte]
+      · have hd' : (e.2 == d) = false := by simpa using hd
+        simp only [List.filter_cons, hd', Bool.false_eq_true, ↓reduceIte]
+
+theorem cpfd_eq (a b : Inv) (d : Digest) (vn : Nat) (lp : Option LPath)
+    (hm : lowPaths a.manifest d vn = lowPaths b.manifest d vn) (hc : a.contentDir = b.contentDir) :
+    a.contentPathsForDigest d vn lp = b.contentPathsForDigest d vn lp := by
+  unfold Inv.contentPathsForDigest Inv.pathsFor
+  have ha : ((a.manifest.filter (fun e => e.2 == d)).map (·.1)).filter (fun cp => cp.1 ≤ vn) = lowPaths a.manifest d vn := rfl
+  have hb : ((b.manifest.filter (fun e => e.2 == d)).map (·.1)).filter (fun cp => cp.1 ≤ vn) = lowPaths b.manifest d vn := rfl
+  simp only [ha, hb, hm, hc]
+
+theorem cpfd_mem_le (a : Inv) (d : Digest) (vn : Nat) (lp : Option LPath) (cps : List CPath)
+    (h : a.contentPathsForDigest d vn lp = .ok cps) : ∀ cp ∈ cps, cp.1 ≤ vn := by
+  unfold Inv.contentPathsForDigest at h
+  simp only at h
+  have hall : ∀ cp ∈ (a.pathsFor d).filter (fun cp => cp.1 ≤ vn), cp.1 ≤ vn := by
+    intro cp hcp
+    have := (List.mem_filter.1 hcp).2
+    simpa using this
+  split at h
+  · cases h
+  · split at h
+    · split at h
+      · split at h
+        · cases h; exact hall
+        · cases h
+          intro cp hcp
+          exact hall cp (List.mem_filter.1 hcp).1
+      · cases h; exact hall
+    · cases h; exact hall
+
+theorem get_none_of_version {l : List (CPath × Digest)} {h : Nat} (hl : ∀ e ∈ l, e.1.1 = h) {cp : CPath} (hc : cp.1 ≠ h) :
+    AL.get l cp = none := by
+  cases hg : AL.get l cp with
+  | none => rfl
+  | some d =>
+    have := hl (cp, d) (AL.mem_of_get hg)
+    exact absurd this hc
+
+theorem getObjectFile_eq_readObj (r : Repo) (id : Str) (vn : Nat) (p : LPath) (o : Obj) (h : AL.get r.main id = some o) :
+    getObjectFile r id (some vn) p = readObj o vn p := by
+  simp [getObjectFile, h]
+
+/-- installing a staged version that extends the committed object changes no answer about the versions
+    that were already there -/
+theorem installed_read (old o2 : Obj) (hext : Extends o2 old) (hso : StagedOk o2)
+    (vn : Nat) (hvn : vn ≤ old.inv.head.number) (p : LPath) :
+    readObj (installed (some old) o2) vn p = readObj old vn p := by
+  unfold readObj
+  have hcp : (installed (some old) o2).inv.contentPathsForLogicalPath p vn = old.inv.contentPathsForLogicalPath p vn := by
+    simp only [installed, Inv.contentPathsForLogicalPath, hext.versions vn hvn]
+    cases old.inv.getVersion vn with
+    | none => rfl
+    | some v =>
+      simp only
+      cases v.lookup p with
+      | none => rfl
+      | some d =>
+        simp only
+        apply cpfd_eq _ _ _ _ _ _ hext.cdir
+        rw [← lowPaths_filter o2.inv.manifest d vn old.inv.head.number hvn, hext.manifest]
+  rw [hcp]
+  cases hc : old.inv.contentPathsForLogicalPath p vn with
+  | error e => rfl
+  | ok cps =>
+    simp only
+    -- every content path of an earlier version is looked up in the files that were already there
+    have hle : ∀ cp ∈ cps, cp.1 ≤ vn := by
+      simp only [Inv.contentPathsForLogicalPath] at hc
+      split at hc
+      · cases hc
+      · split at hc
+        · cases hc
+        · exact cpfd_mem_le _ _ _ _ _ hc
+    have hfiles : cps.map (fun cp => AL.get (installed (some old) o2).files cp) = cps.map (fun cp => AL.get old.files cp) := by
+      apply List.map_congr_left
+      intro cp hcp'
+      simp only [installed, Option.map_some, Option.getD_some, AL.get_append]
+      have : AL.get o2.files cp = none :=
+        get_none_of_version hso.filesHead (by have := hle cp hcp'; rw [hext.head]; omega)
+      rw [this]
+      cases AL.get old.files cp <;> rfl
+    rw [hfiles]
+
+/-- the object `id` is still there after the operation, at the same or a later head, and answers the
+    read of version `vn` exactly as `old` did -/
+def KeepsRead (r' : Repo) (id : Str) (old : Obj) (vn : Nat) (p : LPath) : Prop :=
+  ∃ new, AL.get r'.main id = some new ∧ old.inv.head.number ≤ new.inv.head.number ∧ readObj new vn p = readObj old vn p
+
+theorem KeepsRead.same {r r' : Repo} {id : Str} {old : Obj} (hm : AL.get r.main id = some old)
+    (h : AL.get r'.main id = AL.get r.main id) (vn : Nat) (p : LPath) : KeepsRead r' id old vn p :=
+  ⟨old, by rw [h]; exact hm, Nat.le_refl _, rfl⟩
+
+theorem commit_keeps_reads (r : Repo) (id : Str) (m : Meta) (keep : Digest → List CPath) (hasRoot : Bool)
+    (hok : RepoOk r) (hext : ExtInv r) (old : Obj) (hm : AL.get r.main id = some old)
+    (vn : Nat) (hvn : vn ≤ old.inv.head.number) (p : LPath) :
+    KeepsRead (commit r id m keep hasRoot).2 id old vn p := by
+  rcases commit_cases r id m keep hasRoot with ⟨e, _, hmain, _⟩ | ⟨o, hs, _, _, _, heq⟩
+  · exact KeepsRead.same hm (by rw [hmain]) vn p
+  · have hstep := prepareCommit_step m keep (staged_get_ok hok hs)
+    have hex2 : Extends (prepareCommit o m keep) old := hstep.extends (hext.ext id o old hs hm)
+    have hso2 := hstep.stagedOk (hext.staged id o hs)
+    refine ⟨installed (some old) (prepareCommit o m keep), ?_, ?_, installed_read old _ hex2 hso2 vn hvn p⟩
+    · rw [heq]; simp only; rw [AL.get_insert_self, hm]
+    · have := hex2.head
+      show old.inv.head.number ≤ (prepareCommit o m keep).inv.head.number
+      omega
+
+theorem step_keeps_reads (r : Repo) (now : Str) (op : Op) (hok : RepoOk r) (hext : ExtInv r)
+    (id : Str) (old : Obj) (hm : AL.get r.main id = some old) (hnp : ∀ i, op = .purge i → i ≠ id)
+    (vn : Nat) (hvn : vn ≤ old.inv.head.number) (p : LPath) :
+    KeepsRead (step r now op).2 id old vn p := by
+  by_cases hst : op.isStaging = true
+  · exact KeepsRead.same hm (by rw [Theorems.C08.C08_staging_preserves_main r now op hst]) vn p
+  · by_cases hid : id = op.target
+    · cases op with
+      | commit id' m keep hasRoot =>
+        simp only [Op.target] at hid
+        subst hid
+        exact commit_keeps_reads r id m keep hasRoot hok hext old hm vn hvn p
+      | upgrade id' target m keep hasLayout =>
+        simp only [Op.target] at hid
+        subst hid
+        simp only [step, upgradeObject]
+        split
+        · exact KeepsRead.same hm rfl vn p
+        · rename_i r1 o hg
+          obtain ⟨h1, hmain, hso, hex, _⟩ := getOrCreateStaged_ext hext hok hg
+          obtain ⟨hok1, ho⟩ := getOrCreateStaged_ok hok hg
+          have hm1 : AL.get r1.main id = some old := by rw [hmain]; exact hm
+          split
+          · exact KeepsRead.same hm (by rw [hmain]) vn p
+          · split
+            · exact KeepsRead.same hm (by rw [hmain]) vn p
+            · have hs := specChange_step o target
+              have ho' : ObjOk { o with inv := { o.inv with spec := target } } := InvOk.congr (a := o.inv) rfl rfl ho
+              have hext' : ExtInv (saveStaged r1 id { o with inv := { o.inv with spec := target } }) :=
+                ExtInv.saveStaged h1 (hs.stagedOk hso) (fun old' hm' => hs.extends (hex old' (by rw [← hmain]; exact hm')))
+              exact commit_keeps_reads (saveStaged r1 id { o with inv := { o.inv with spec := target } }) id m keep hasLayout
+                (saveStaged_ok hok1 ho') hext' old hm1 vn hvn p
+      | purge id' =>
+        simp only [Op.target] at hid
+        exact absurd hid.symm (hnp id' rfl)
+      | _ => simp [Op.isStaging] at hst
+    · exact KeepsRead.same hm (Theorems.C08.C08_other_objects r now op id hid).1 vn p
 
 end Rocfl
